@@ -46,14 +46,24 @@ WHAT = {
 }
 
 
+# keyword NAMES that are not identifiers (legal through f( **{'*': 5} )): among them the two spellings that
+# filter_args uses as keys of its result.  All sort before every lowercase letter; codes keep the string order.
+ODD_NAMES = {"": -60, " ": -50, " b": -49, "*": -40, "**": -39, "0": -30}
+ODD_CODES = {v: k for k, v in ODD_NAMES.items()}
+assert sorted(ODD_NAMES) == sorted(ODD_NAMES, key=ODD_NAMES.get)
+
+
 def code(name):
-    """identifier -> integer of the model; order of integers = order of the strings (single letters)"""
-    assert len(name) == 1
+    """name -> integer of the model; order of integers = order of the strings (single lowercase letters and the
+    non-identifier names above)"""
+    if name in ODD_NAMES:
+        return ODD_NAMES[name]
+    assert len(name) == 1 and "a" <= name <= "z", name
     return ord(name) - 96
 
 
 def uncode(n):
-    return chr(n + 96)
+    return ODD_CODES[n] if n in ODD_CODES else chr(n + 96)
 
 
 # ------------------------------------------------------------------------------------ enumeration
@@ -173,6 +183,26 @@ def value_stream(rng, sigs):
                         vals = [rng.choice(ARG_VALUES) for _ in range(n)]
                     calls.append([vals[:len(pos)], [[k, v] for (k, _), v in zip(kw, vals[len(pos):])], None])
             groups.append({"sig": sig, "meth": meth, "calls": calls, "stream": "values"})
+    return groups
+
+
+def odd_keyword_stream(sigs):
+    """functions with **kwargs (with and without *args), plain and as methods: surplus keywords whose NAMES are not
+    identifiers -- in particular '*' and '**', the spellings filter_args uses for its own keys -- on every call shape"""
+    groups = []
+    extras = [["*"], ["**"], ["**", "*"], ["", " "], ["0", " b", "*"]]
+    for meth in (None, "pk"):
+        for sig in sigs:
+            if not any(p[0] == VK for p in sig) or (meth and len(sig) > 2):
+                continue
+            calls = []
+            for pos, kw, _ in calls_for(sig, meth):
+                if any(k in ("e", "z", "a", SELF_NAME) for k, _ in kw):
+                    continue   # shapes without the ordinary surplus keywords: replaced by the odd ones
+                for ex in extras:
+                    calls.append([pos, kw + [[n, 200 + code(n)] for n in ex], None])
+                calls.append([pos, kw + [["*", 160], ["**", 161]], ["**"]])
+            groups.append({"sig": sig, "meth": meth, "calls": calls, "stream": "odd-keyword-names"})
     return groups
 
 
@@ -335,7 +365,7 @@ def coq_sig(sig):
 
 def coq_call(pos, kw):
     return "(mkCall %s %s)" % (common.coq_list(map(common.zlit, pos)),
-                               common.coq_list("(%d, %s)" % (code(n), common.zlit(v)) for n, v in kw))
+                               common.coq_list("(%s, %s)" % (common.zlit(code(n)), common.zlit(v)) for n, v in kw))
 
 
 def coq_expr(sig, meth, pos, kw, ign):
@@ -819,6 +849,7 @@ def run(ctx):
     groups += share_families(small)
     groups += wraps_families(ctx.rng, small)
     groups += receiver_stream(small)
+    groups += odd_keyword_stream(small)
     n_streams = sum(len(g["calls"]) for g in groups) - n_before
     # partial objects: filter_args does not look at the signature at all
     pgroups = [{"sig": sig, "meth": None, "partial": True, "calls": list(calls_for(sig, None))[:40]}
@@ -954,7 +985,8 @@ def run(ctx):
                 "decorator called alternately; (receivers) over signatures with <= 2 parameters, methods bound to "
                 "receivers with non-standard truthiness/equality (__bool__ False, __len__ 0, __bool__ raising, __eq__ always "
                 "True, empty list/dict subclass, int subclass 0), to an instance of a __slots__ class and to the class "
-                "(bound classmethod), every call shape without and with ignore=[self]. distinct_nontrivial = "
+                "(bound classmethod), every call shape without and with ignore=[self]; (odd-keyword-names) functions with "
+                "**kwargs: surplus keywords named '*', '**', '', ' ', ' b', '0' on every call shape. distinct_nontrivial = "
                 "calls Python accepts that lie in the fragment of C07_agree_partial (all enumerated cases are "
                 "distinct by construction)" % (maxn, len(sigs), "all" if with_ignore >= 1 else "35% of the",
                                                n_rand_sigs, n_opaque),
